@@ -184,7 +184,12 @@ def run(ctx):
             continue
         f32 = da.freq.values.astype("float32")
         dsh = (da.dir.values + 2e-5) % 360.0
-        for what, kw, want in (("freq as float32", dict(freq=f32), ("freq", f32.astype("float64"))),
+        # the source directions with north labelled 360 instead of 0, refined by the midpoints: labels in (0, 360] are valid requests
+        d360 = np.array(sorted(set((float(x) % 360.0) or 360.0 for x in da.dir.values) | set(((float(a) + float(b)) / 2.0) for a, b in
+                                                                                             zip(sorted(da.dir.values % 360.0), sorted(da.dir.values % 360.0)[1:]))))
+        for what, kw, want in (("north labelled 360 (ndarray)", dict(dir=d360), ("dir", d360)),
+                               ("north labelled 360 (list)", dict(dir=[float(x) for x in d360]), ("dir", d360)),
+                               ("freq as float32", dict(freq=f32), ("freq", f32.astype("float64"))),
                                ("freq as float32 DataArray", dict(freq=xr.DataArray(f32, dims="freq")), ("freq", f32.astype("float64"))),
                                ("dir shifted by 2e-5", dict(dir=dsh), ("dir", dsh))):
             ctx.case(("near-identity", what, tuple(v["F"]), tuple(v["D"]), tuple(x for r in v["E"] for x in r)), True)
@@ -192,6 +197,8 @@ def run(ctx):
                 out = da.spec.interp(**kw)
                 got = np.asarray(out[want[0]].values, float)
                 ok = got.shape == want[1].shape and np.array_equal(got, want[1])
+                if ok and what.startswith("north"):
+                    ok = bool(np.isfinite(out.values).all()) and L.close(float(out.spec.hs()), float(da.spec.hs()), rel=1e-9)
             except Exception as ex:  # noqa
                 ctx.violation({"fn": "interp", "relation": "requested-coordinates", "raised": type(ex).__name__}, "interp(%s) raised %s" % (what, type(ex).__name__),
                               {"err": str(ex)[:200]})
